@@ -58,6 +58,23 @@ func panicClass(c *fw.Ctx, fn *ssa.Function, pn *ssa.Panic) (class, detail strin
 		if owners := redactionAccessorRegion(c); owners[fn] {
 			return "accessor:redaction", "helper only reachable from the redaction-based accessors (F3: same-parse + content-object check)"
 		}
+		// likewise for a helper that every caller of which is a room-id accessor: the panic
+		// guards spec.NewRoomID of the id the accessor computes (F3 discharges it there)
+		callers, allRoomID := 0, true
+		for _, f := range c.P.SrcFuncs() {
+			for _, cs := range fw.Calls(f) {
+				if cs.Common().StaticCallee() != fn {
+					continue
+				}
+				callers++
+				if cl, _ := namedPanicClass(fw.FuncName(f)); cl != "accessor:room-id" {
+					allRoomID = false
+				}
+			}
+		}
+		if callers > 0 && allRoomID && strings.Contains(cond.String(), "gmsl/spec.NewRoomID(") {
+			return "accessor:room-id", "helper only called from the room-id accessors; guards spec.NewRoomID of the accessor's id (F3)"
+		}
 	}
 	return "", cond.String()
 }
@@ -210,6 +227,10 @@ func checkF1(c *fw.Ctx) {
 				c.Fail(rule, fmt.Sprintf("NewUserIDOrPanic is not used in library code (%s)", fw.FuncName(fn)), c.P.Pos(call.Pos()), "NewUserIDOrPanic on a value that may come from the network")
 			case "(gmsl/spec.RoomID).Domain":
 				ok, why := domainCallOK(c, fn, call)
+				if !ok && strings.Contains(why, "version table unavailable") {
+					c.Undecided(rule, fmt.Sprintf("RoomID.Domain() call in %s is never reached with a domainless room id", fw.FuncName(fn)), "the room-version table could not be evaluated from the source (it is not a literal)")
+					continue
+				}
 				c.Check(ok, rule, fmt.Sprintf("RoomID.Domain() call in %s is never reached with a domainless room id", fw.FuncName(fn)), c.P.Pos(call.Pos()), why, "RoomID.Domain() may be called on a domainless (v12) room id and panics: "+why)
 			}
 		}
@@ -294,7 +315,10 @@ func domainCallOK(c *fw.Ctx, fn *ssa.Function, call ssa.CallInstruction) (bool, 
 					continue
 				}
 				callers++
-				if ok, _ := domainCallOK(c, f, cs); !ok {
+				if ok, w := domainCallOK(c, f, cs); !ok {
+					if strings.Contains(w, "version table unavailable") {
+						return false, w
+					}
 					okAll = false
 				}
 			}
@@ -311,7 +335,7 @@ func checkF3(c *fw.Ctx) {
 	// room id validators are found by role: what the constructors call on eventFields.RoomID (or on the event) and gate on
 	isCreate := func(term fw.Term, recv string) (typeAtom, skAtom bool) {
 		for _, l := range term {
-			if strings.Contains(l.Atom, ".Type("+recv) && strings.HasSuffix(l.Atom, `== "m.room.create")`) && l.Pos {
+			if (strings.Contains(l.Atom, ".Type("+recv) || strings.Contains(l.Atom, recv+".eventV2.eventV1.eventFields.Type ==") || strings.Contains(l.Atom, recv+".eventFields.Type ==")) && strings.HasSuffix(l.Atom, `== "m.room.create")`) && l.Pos {
 				typeAtom = true
 			}
 			if strings.Contains(l.Atom, ".StateKeyEquals("+recv) && strings.HasSuffix(l.Atom, `,"")`) && l.Pos {
@@ -350,11 +374,20 @@ func checkF3(c *fw.Ctx) {
 			if strings.Contains(atom, ".StateKeyEquals(") && strings.HasSuffix(atom, `,"")`) {
 				okPred = true
 			}
-			if strings.Contains(atom, ".Type(") && strings.HasSuffix(atom, `== "m.room.create")`) {
+			if (strings.Contains(atom, ".Type(") || strings.Contains(atom, "eventFields.Type ==")) && strings.HasSuffix(atom, `== "m.room.create")`) {
 				tyOK = true
 			}
 		}
-		c.Check(okPred && tyOK, rule, spec+" decides 'is the create event' by type AND empty state key (the predicate checkRoomID validates with)", c.P.Pos(fn.Pos()), "", "the accessor uses a different create-event predicate than the parse-time check")
+		construct := spec + " decides 'is the create event' by type AND empty state key (the predicate checkRoomID validates with)"
+		switch {
+		case okPred && tyOK:
+			c.Ok(rule, construct, c.P.Pos(fn.Pos()), "")
+		case tyOK && !okPred:
+			// positive evidence: the type is tested, the state key is not
+			c.Fail(rule, construct, c.P.Pos(fn.Pos()), "the accessor decides by the event type alone: a non-state m.room.create event (no state key) is treated as the create event, which the parse-time check does not validate for")
+		default:
+			c.Undecided(rule, construct, "the create-event test of the accessor was not recognised")
+		}
 	}
 	// every constructor reaches a room id validator (C03.3 has the gate; here: the validator is one of the two analysed above)
 	n := 0
@@ -393,8 +426,29 @@ func checkF3(c *fw.Ctx) {
 					why = fmt.Sprintf("the room id is validated with %s, which accepts ids that spec.NewRoomID (used by RoomID()) rejects", name)
 				}
 			}
-			_ = why
-			c.Check(okV, rule, short+" validates the room id with the accessor's parser before returning an event", c.P.Pos(fn.Pos()), "", why+": RoomID() panics on such an event")
+			construct := short + " validates the room id with the accessor's parser before returning an event"
+			if !okV {
+				// the validation may sit behind a method or helper that takes no room id argument
+				// (res.validateRoomID()): gate on the known validators, helper-transparently
+				known := fw.NameIs("gmsl.checkRoomIDV1", "gmsl.checkRoomID", "gmsl/spec.NewRoomID")
+				g := fw.GuardCallErrNil("room id validated", known)
+				succ := fw.ErrNilSuccess(fn, fw.ErrIndex(fn), fw.IsTail(fw.NameIs("gmsl.CheckFields")))
+				r := fw.Gate(fn, g, succ)
+				inRegion := false
+				for _, dc := range fw.AllDeepCalls(fn, nil) {
+					if known(fw.CalleeName(dc.Call)) {
+						inRegion = true
+					}
+				}
+				switch {
+				case len(r.Sites)+r.TailSites > 0 && len(r.Escapes) == 0:
+					okV = true
+				case inRegion && len(r.Sites)+r.TailSites == 0:
+					c.Undecided(rule, construct, "a room id validator is called in the constructor's region, but how its verdict reaches the constructor's result was not traced")
+					continue
+				}
+			}
+			c.Check(okV, rule, construct, c.P.Pos(fn.Pos()), "", why+": RoomID() panics on such an event")
 		}
 	}
 	c.Min(rule+" constructors", n, 9)
